@@ -11,6 +11,8 @@ import json, os, shutil, subprocess, sys, tempfile, time
 
 mutdir, wt, name = sys.argv[1:4]
 meta = json.load(open(os.path.join(mutdir, "meta.json"))) if os.path.exists(os.path.join(mutdir, "meta.json")) else {}
+if "author_meta" in meta:  # re-evaluation of a change that is already stored under /verif/seeded
+    meta = meta["author_meta"]
 prop = (meta.get("property") or name.split("_")[0]).upper()
 checks = sys.argv[4:] or [prop]
 if checks == ["all"]:
@@ -50,8 +52,9 @@ finally:
 result["author_meta"] = meta
 dst = os.path.join("/verif/seeded", name)
 os.makedirs(dst, exist_ok=True)
-shutil.copy(os.path.join(mutdir, "patch.diff"), dst)
-shutil.copy(os.path.join(mutdir, "demo.py"), dst)
+if os.path.abspath(mutdir) != os.path.abspath(dst):
+    shutil.copy(os.path.join(mutdir, "patch.diff"), dst)
+    shutil.copy(os.path.join(mutdir, "demo.py"), dst)
 result["what_i_ran"] = ["git apply patch.diff (scratch worktree)", "pytest -q -p no:cacheprovider --deselect tests/ipc", "demo.py without / with the change",
                         "VERIF_REPO=<worktree> run.py <ID> --tier quick for: " + ",".join(checks)]
 json.dump(result, open(os.path.join(dst, "meta.json"), "w"), indent=1)
